@@ -174,6 +174,16 @@ end cut
 
 /-! ## the three constructs -/
 
+/-- what a positive lookaround makes of the successes of its body -/
+def posLookRes (i : Nat) : List St → List St
+  | [] => []
+  | st' :: _ => [⟨i, st'.caps⟩]
+
+/-- what a negative lookaround makes of the successes of its body -/
+def negLookRes (i : Nat) (C : List (Nat × Nat × Nat)) : List St → List St
+  | [] => [⟨i, C⟩]
+  | _ :: _ => []
+
 section nodes
 variable {X : Setup} {a i sz : Nat} {T S : List Int} {C : List (Nat × Nat × Nat)} {s : VMState} {body : Code}
   {rs : List St}
@@ -226,10 +236,7 @@ theorem poslook_delivers {TPx : TP} {sets : List (List Nat)} (hrel : EnvRel TPx 
       Delivers X (a + 2 + sz) (((a + 1 : Nat) : Int) :: (a : Int) :: T)
         ((i : Int) :: (C.length : Int) :: (T.length : Int) :: S)
         ((i : Int) :: (C.length : Int) :: (T.length : Int) :: S) C rs s1) :
-    Delivers X (a + 2 + sz + 2) T S S C
-      (match rs with
-       | [] => []
-       | st' :: _ => [⟨i, st'.caps⟩]) s := by
+    Delivers X (a + 2 + sz + 2) T S S C (posLookRes i rs) s := by
   have h1 : CodeAt X.p a ([i0 opSetjump, i0 opSetmark] ++ body) := hcode.left'
   have h12 : CodeAt X.p a ([i0 opSetjump] ++ [i0 opSetmark]) := h1.left'
   have hsj : InstrAt X.p a (i0 opSetjump) := (h12.left').instr
@@ -288,10 +295,7 @@ theorem neglook_delivers (hT : T ≠ [])
         ((C.length : Int) :: (T.length : Int) :: S) C s1 →
       Delivers X (a + 3 + sz) (((a + 1 : Nat) : Int) :: (i : Int) :: (a : Int) :: T)
         ((C.length : Int) :: (T.length : Int) :: S) ((C.length : Int) :: (T.length : Int) :: S) C rs s1) :
-    Delivers X (a + 3 + sz + 2) T S S C
-      (match rs with
-       | [] => [⟨i, C⟩]
-       | _ :: _ => []) s := by
+    Delivers X (a + 3 + sz + 2) T S S C (negLookRes i C rs) s := by
   have h1 : CodeAt X.p a ([i0 opSetjump, i1 opLazybranch ((a + 3 + sz + 1 : Nat) : Int)] ++ body) := hcode.left'
   have h12 : CodeAt X.p a ([i0 opSetjump] ++ [i1 opLazybranch ((a + 3 + sz + 1 : Nat) : Int)]) := h1.left'
   have hsj : InstrAt X.p a (i0 opSetjump) := (h12.left').instr
